@@ -322,6 +322,7 @@ func RunAll(rep *common.Report, jobs []Job, workerArgs []string, procs int) *Tot
 				if !stdout.Scan() {
 					resCh <- &JobResult{Job: job, Err: "worker died"}
 					closer()
+					closer = nil
 					cmd = nil
 					continue
 				}
